@@ -378,6 +378,18 @@ func Mergeable(rng *rand.Rand, opt Options) []*Service {
 			}
 		}
 	}
+	// a Node type that has no field but `id` anywhere (a marker, a session): one or two services declare it
+	if rng.Intn(4) == 0 {
+		for k := 0; k < 1+rng.Intn(2); k++ {
+			s := ss[rng.Intn(n)]
+			if s.Def("Bare") == nil {
+				if s.Def("Node") == nil {
+					s.Defs = append(s.Defs, &Def{Kind: "INTERFACE", Name: "Node", Fields: []Field{{Name: "id", Type: "ID!"}}})
+				}
+				s.Defs = append(s.Defs, &Def{Kind: "OBJECT", Name: "Bare", Ifaces: []string{"Node"}, Fields: []Field{{Name: "id", Type: "ID!"}}})
+			}
+		}
+	}
 	// roots: unique field names per service
 	for si, s := range ss {
 		q := s.ensure("OBJECT", "Query")
